@@ -1310,9 +1310,19 @@ impl Session {
                 "[Session] process_stream_data: Waiting for data from streams (iteration {})",
                 iteration
             );
+            // Register for the close notification *before* looking at the closed flag:
+            // notify_waiters() only reaches waiters that already exist, so a close() that ran
+            // while this task was not parked here (not started yet, or busy writing) would
+            // otherwise be missed and the task would wait on the channel forever.
+            let notified = close_notify.notified();
+            tokio::pin!(notified);
+            notified.as_mut().enable();
+            if self.is_closed() {
+                break;
+            }
             let result = tokio::select! {
                 biased;
-                _ = close_notify.notified() => {
+                _ = &mut notified => {
                     tracing::debug!(
                         session_id = session_id,
                         "[Session] process_stream_data: Received close notification (iteration {})",
